@@ -361,7 +361,19 @@ class Builtins:
         return st, SV("(canonset %s)" % seq.t, T.SetT(pt))
 
     def star_call(self, e, st, k, ctl):
-        raise Unsupported("*args call", e)
+        """f(a, b, **kw) where kw is the verified function's own opaque **kw: the call is evaluated without them
+        (callee contracts are stated without the extra keyword arguments)"""
+        ex = self.ex
+        if any(isinstance(a, ast.Starred) for a in e.args):
+            raise Unsupported("*args call", e)
+        for kw in e.keywords:
+            if kw.arg is None:
+                v = st.env.get(kw.value.id) if isinstance(kw.value, ast.Name) else None
+                if not (isinstance(v, PyV) and v.kind == "kwargs"):
+                    raise Unsupported("**x call where x is not the function's own **kw", e)
+        e2 = ast.Call(func=e.func, args=list(e.args), keywords=[kw for kw in e.keywords if kw.arg is not None])
+        ast.copy_location(e2, e)
+        return ex.ev_Call(e2, st, k, ctl)
 
     # ------------------------------------------------------------ builtins
     def builtin(self, name, args, kwargs, st, k, ctl, node):
@@ -529,6 +541,8 @@ class Builtins:
         return n.t
 
     def hasattr(self, o, name, node):
+        if isinstance(o, PyV) and o.kind == "module" and (o.data, name) in (("shutil", "move"), ("shutil", "copy"), ("os", "remove")):
+            return "true"          # standard-library functions that exist in every supported Python
         if isinstance(o, SV):
             k = o.ty.kind
             if k == "ref":
@@ -640,6 +654,8 @@ class Builtins:
             return self.str_method(o, name, args, st, k, ctl, node)
         if k_ in ("map", "qmap"):
             return self.map_method(o, name, args, st, k, ctl, node)
+        if k_ == "handle" and name in ("close", "flush"):
+            return k(st, SV("none", T.NONE))          # buffering is not modelled: writes reach the file at once
         if k_ == "DT" and name == "isoformat":
             return k(st, SV("(dt_iso %s)" % o.t, T.STR))
         raise Unsupported("method %s on %r" % (name, o.ty), node)
@@ -834,6 +850,10 @@ class Builtins:
             if name == "qm_key":
                 return SV("(select (%s %s) %s)" % (keyf, m.t, u), T.QN)
             return SV(cell if T.total_map_value(vv) else S.the(vv, cell), vv)
+        if name == "fs_get":
+            # ghost file system: content of the file at a path (None = no such file), in the current / old state
+            S.sort(T.Opt(T.STR))
+            return SV("(select %s %s)" % (ex.fs_term(st), ex.coerce(a[0], T.STR).t), T.Opt(T.STR))
         if name == "jobj":
             S.sort(T.JREP)
             return SV("(JObj %s %s %s)" % (ex.box(a[0]).t, ex.coerce(a[1], T.Opt(T.STR)).t, ex.coerce(a[2], T.Opt(T.STR)).t), T.JREP)
